@@ -85,6 +85,18 @@ pub enum Op {
     InsertRaw { k: u16, vheap: u32 },
     /// retain keeping ids with id % m != r (seeded runs)
     RetainMod { m: u16, r: u16 },
+    /// read-only lookups as operations (fault enumeration needs them as steps)
+    Peek { k: u16, b: bool },
+    PeekEntry { k: u16, b: bool },
+    Contains { k: u16, b: bool },
+    /// debug-format the cache
+    DebugFmt,
+    /// not a cache operation: arms the fuel so that the idx-th callback of
+    /// `kind` inside the *next* operation panics
+    ArmFuel { kind: u8, idx: u16 },
+    /// drain(), `n` calls (bit i of `bits`: 1 = next, 0 = next_back), then
+    /// mem::forget the iterator
+    DrainForget { n: u8, bits: u16 },
 }
 
 impl Op {
@@ -145,6 +157,18 @@ impl Op {
             Op::SetMaxRaw { v } => format!("set_max_size({})", fmt_big(*v)),
             Op::InsertRaw { k, vheap } => format!("insert(k{k}, v{vheap})"),
             Op::RetainMod { m, r } => format!("retain(|k,_| k.id % {m} != {r})"),
+            Op::Peek { k, b } => format!("peek({} k{k})", bs(b)),
+            Op::PeekEntry { k, b } => format!("peek_entry({} k{k})", bs(b)),
+            Op::Contains { k, b } => format!("contains({} k{k})", bs(b)),
+            Op::DebugFmt => "format!(\"{:?}\", cache)".into(),
+            Op::ArmFuel { kind, idx } => format!(
+                "/* the next operation: invocation #{idx} of {:?} panics (caught with catch_unwind) */",
+                CB_KINDS[*kind as usize]
+            ),
+            Op::DrainForget { n, bits } => format!(
+                "{{ let mut d = cache.drain(); {} mem::forget(d); }}",
+                (0..*n).map(|i| if (bits >> i) & 1 == 1 { "d.next();" } else { "d.next_back();" }).collect::<Vec<_>>().join(" ")
+            ),
         }
     }
 }
@@ -245,6 +269,8 @@ pub enum Ret {
     ReserveErr { overflow: bool },
     /// one element per call of the pattern, then the remainder is dropped
     Drained(Vec<Option<(KO, VO)>>),
+    Bool(bool),
+    Text(String),
     /// the operation panicked (documented panic of reserve, or unexpected)
     Panicked(String),
 }
@@ -608,6 +634,53 @@ impl<'u> Exec<'u> {
                 drop(old);
                 Ret::Unit
             }
+            Op::Peek { k, b } => {
+                let r = if b {
+                    self.cr().peek(&QKey(KeyId(k as u32))).map(|v| vo(v, "peek"))
+                } else {
+                    let p = TKey::new(k as u32, u.key_heap(k as u32));
+                    self.cr().peek(&p).map(|v| vo(v, "peek"))
+                };
+                Ret::Val(r)
+            }
+            Op::PeekEntry { k, b } => {
+                let r = if b {
+                    self.cr().peek_entry(&QKey(KeyId(k as u32))).map(|(k, v)| (ko(k, "peek_entry"), vo(v, "peek_entry")))
+                } else {
+                    let p = TKey::new(k as u32, u.key_heap(k as u32));
+                    self.cr().peek_entry(&p).map(|(k, v)| (ko(k, "peek_entry"), vo(v, "peek_entry")))
+                };
+                Ret::Entry(r)
+            }
+            Op::Contains { k, b } => {
+                let r = if b {
+                    self.cr().contains(&QKey(KeyId(k as u32)))
+                } else {
+                    let p = TKey::new(k as u32, u.key_heap(k as u32));
+                    self.cr().contains(&p)
+                };
+                Ret::Bool(r)
+            }
+            Op::DebugFmt => Ret::Text(format!("{:?}", self.cr())),
+            Op::ArmFuel { kind, idx } => {
+                set_fuel(Some((CB_KINDS[kind as usize], idx as u32)));
+                Ret::Unit
+            }
+            Op::DrainForget { n, bits } => {
+                let mut got: Vec<Option<(TKey, TVal)>> = vec![];
+                {
+                    let mut d = self.c().drain();
+                    for i in 0..n {
+                        got.push(if (bits >> i) & 1 == 1 { d.next() } else { d.next_back() });
+                    }
+                    std::mem::forget(d);
+                }
+                let mut out = vec![];
+                for g in got {
+                    out.push(g.map(|(k, v)| self.hold(k, v)));
+                }
+                Ret::Drained(out)
+            }
             Op::Drain { pat } => {
                 let pat = u.drain_pats[pat as usize].clone();
                 let mut got: Vec<Option<(TKey, TVal)>> = vec![];
@@ -681,6 +754,12 @@ pub fn op_to_json(op: &Op) -> Value {
         Op::SetMaxRaw { v } => json!({"t": "SetMaxRaw", "v": v as u64}),
         Op::InsertRaw { k, vheap } => json!({"t": "InsertRaw", "k": k, "vheap": vheap}),
         Op::RetainMod { m, r } => json!({"t": "RetainMod", "m": m, "r": r}),
+        Op::Peek { k, b } => json!({"t": "Peek", "k": k, "b": b}),
+        Op::PeekEntry { k, b } => json!({"t": "PeekEntry", "k": k, "b": b}),
+        Op::Contains { k, b } => json!({"t": "Contains", "k": k, "b": b}),
+        Op::DebugFmt => json!({"t": "DebugFmt"}),
+        Op::ArmFuel { kind, idx } => json!({"t": "ArmFuel", "kind": kind, "idx": idx}),
+        Op::DrainForget { n, bits } => json!({"t": "DrainForget", "n": n, "bits": bits}),
     }
 }
 
@@ -712,6 +791,12 @@ pub fn op_from_json(v: &Value) -> Option<Op> {
         "SetMaxRaw" => Op::SetMaxRaw { v: n("v")? as usize },
         "InsertRaw" => Op::InsertRaw { k: n("k")? as u16, vheap: n("vheap")? as u32 },
         "RetainMod" => Op::RetainMod { m: n("m")? as u16, r: n("r")? as u16 },
+        "Peek" => Op::Peek { k: n("k")? as u16, b: b("b")? },
+        "PeekEntry" => Op::PeekEntry { k: n("k")? as u16, b: b("b")? },
+        "Contains" => Op::Contains { k: n("k")? as u16, b: b("b")? },
+        "DebugFmt" => Op::DebugFmt,
+        "ArmFuel" => Op::ArmFuel { kind: n("kind")? as u8, idx: n("idx")? as u16 },
+        "DrainForget" => Op::DrainForget { n: n("n")? as u8, bits: n("bits")? as u16 },
         _ => return None,
     })
 }
